@@ -147,7 +147,7 @@ class ErrorHandling:
                     continue
 
                 # try to replace token
-                tokens2 = self.tokens[:error_index - 1] + [token] + self.tokens[error_index:]
+                tokens2 = self.tokens[:error_index] + [token] + self.tokens[error_index + 1:]
                 if self.query_is_valid(tokens2):
                     suggestions.append(value)
                     continue
